@@ -717,8 +717,10 @@ RECIPES = {
         "technique": "deterministic simulation: seeded gate-table runs of a client/cloud pair with injected admissible phase faults, "
                      "wire chunking and aliasing; omniscient-observer oracles at ELF-interposed bootstrap/key-switch seams",
         "level_text": "Seeded exploration of (key, gate, input tuple, provenance, admissible phase fault, transport chunking) on all ten "
-                      "library builds; each run checks decryption against the truth table, the observer's own phase sign, the exact "
-                      "affine identity of the gate's internal combination modulo 2^32 and the exact key-switch identity. Sampling, not proof.",
+                      "library builds; each run checks decryption against the truth table, the observer's own phase sign and, at every "
+                      "bootstrap inside a gate, that the result is +mu / -mu according to the independently rounded phase. The gate's internal "
+                      "combination is compared with the reference formula as a diagnostic only (a different but correct implementation must not "
+                      "alarm). Sampling, not proof.",
         "level_note": "Default sets get hundreds (quick) to thousands (thorough) of gate evaluations per back-end; swarm parameter sets "
                       "(N=1024, small n, Bgbit<=10, accepted only when the worst-case noise estimate leaves 12 sigma) supply the bulk of the "
                       "runs. Trusted: observer arithmetic, glibc/libstdc++, the noise estimate used to accept swarm sets.",
